@@ -32,7 +32,9 @@ MANIFEST = dict(
           '--dfa files may be written, hence nothing at the script destination unless one of them names it '
           '(C06_main_exit1, _destination_untouched; the excluded corner is a known finding, reproduced on the binary every run); '
           'code 0 -> exactly one script write whose content is Driver.compile + the emitter (compile_bash for bash) and no '
-          'diagnostic (C06_main_exit0); the verdict and the diagnostics are those of Driver.compile (C08_main_verdict). Tie '
+          'diagnostic (C06_main_exit0); the verdict and the diagnostics are those of Driver.compile (C08_main_verdict); Props/C15c.v: the '
+          'warnings on stderr are exactly Diag.warning_messages of the validated grammar, each once, sorted, first, and for any two '
+          'choices of the warning sets the traces minus the warnings (exit status and script write included) are equal. Tie '
           '(maintie.py): the binary over command lines (0/1/2+ shell options, destination file / - / existing file, --regex / '
           '--dfa to a file, to -, to the script path, usage file present / missing / stdin / absent, --version) x inputs (clean, '
           'warnings, an error of every stage, empty, invalid UTF-8, non-ASCII, random mutated grammars): exit status, stdout, '
@@ -202,13 +204,13 @@ def judge(b, shell, to_file, sentinel):
 def run(ctx, res):
     with build.Lock():
         bins = {'debug': build.complgen(False), 'release': build.complgen(True)}
-        # the theorems about the command as a whole (Model/Main.v) live in Props/C06c.v
-        extra = coqcheck.check_property('C06c') if not ctx.get('no_proof') else None
-    if extra is not None:
+        # the theorems about the command as a whole (Model/Main.v) live in Props/C06c.v, those about its warnings in Props/C15c.v
+        extras = {p: coqcheck.check_property(p) for p in ('C06c', 'C15c')}
+    for p, extra in extras.items():
         if not extra['ok']:
-            res.violations.append(report.Violation('proof obligations of C06c (C06 for the command) no longer check',
+            res.violations.append(report.Violation('proof obligations of %s (the command as a trace of effects) no longer check' % p,
                                                    dict(kind='proof-obligation', errors=extra['errors'][:5]), found_input=False))
-        res.extra['theorems_C06c'] = extra['theorems']
+        res.extra['theorems_' + p] = extra['theorems']
     cs = cases(ctx)
     r = ctx['rng']
     jobs, meta = [], []
